@@ -93,6 +93,25 @@ CLAIMED = {
 
 REASON_PENDING = "check under construction in this session (see DESIGN.md section 3); will be claimed once built"
 
+# additions of the round-4 seeded evaluation (appended to the level text)
+ROUND4 = {
+ "C02": " Reply storms (260..1400 body-less unknown-type records at one position) with callers that drain the reply buffer partially or not at all.",
+ "C03": " The caller's drain schedule of the reply buffer (all / all but one byte / a few bytes per call / nothing until the end) differs between the runs compared; reply storms as in C02.",
+ "C05": " Reply storms as in C02.",
+ "C09": " Reads also through poll_read_vectored (two slices, optional empty slices in front / between).",
+ "C10": " Writes also through poll_write_vectored (2..4 slices incl. empty ones): the reported count is a prefix of the concatenation and one record.",
+ "C11": " AbortRequest records with bodies up to 65535 bytes and padding up to 255 (tail beyond 16 bits).",
+ "C13": " Served connections include ones parked inside Request::close after their handler returned (token still alive, with and without KEEP_CONN).",
+ "C14": " Sub-check aborted_connections: connections on which the client aborts most requests, shutdown before every poll, shutdown-future clauses only.",
+ "C16": " The crate is built with trace-more and an evaluate-everything tracing subscriber is installed (all checks), so log statements' field expressions run on hostile input too.",
+ "C17": " Sub-check get_values_result_sequences: replies for configurations whose limits agree in low/high bits or digit count, back to back on one thread.",
+ "C19": " Names with equal XOR deltas at positions 1..40 apart (2..4 of them) and swapped characters, multi-block names.",
+ "C20": " Sub-check header_lengths: every status code x every total length 0..=520 (thorough 2100) of one header, first or behind short headers.",
+}
+for _k, _v in ROUND4.items():
+    _c = CLAIMED[_k]
+    CLAIMED[_k] = (_c[0], _c[1], _c[2] + _v, _c[3], _c[4])
+
 def hook_commits():
     try:
         out = subprocess.run(["git", "-C", "/repo", "log", "--format=%H %s"], capture_output=True, text=True).stdout
